@@ -187,6 +187,10 @@ class Sim:
         self.cancel_started = None
         self.resub_after_cancel = 0
         self.window_resub = False
+        self.srh = None
+        self.srh_seen = set()
+        self.srh_released = False
+        self.srh_jump0 = 0
         self.prompted_recoveries = 0
         self.park_pid = None
         self.after_resub_try = 0
@@ -1342,6 +1346,25 @@ class Sim:
                 continue
         return False
 
+    def holds_node_lock_of_busy_batch(self, a):
+        """Is this (collecting) process inside the lock hold of a node results file whose batch still runs jobs?  (Then the
+        runner of that batch will want the same lock when its next job ends.)"""
+        for lf in glob.glob(os.path.join(glob.escape(self.out), "results", "results_batch_*.csv.lock")):
+            try:
+                with open(lf) as f:
+                    first = f.readline().strip()
+                if not (first and int(first) == a.pid):
+                    continue
+            except (OSError, ValueError):
+                continue
+            m = re.search(r"results_batch_(\d+)\.csv\.lock$", lf)
+            if not m:
+                continue
+            for bid, b in self.batches.items():
+                if b["state"] == "RUNNING" and re.search(rf"_batch_{m.group(1)}\.sh$", b["script"]) and any(n == str(bid) for (_j, n) in self.running_jobs.values()):
+                    return True
+        return False
+
     def lock_held_by_live_actor(self):
         pids = {a.pid for a in self.actors.values() if a.state == "waiting" and not (a.msg and a.msg["k"] == "sleep")}
         for lf in [os.path.join(self.out, "cluster_config.json.lock"), os.path.join(self.out, "processed_results.csv.lock")] + glob.glob(os.path.join(glob.escape(self.out), "results", "*.lock")):
@@ -1382,6 +1405,31 @@ class Sim:
         return not pending
 
     def candidates(self):
+        # slow results-lock holder (system form of C08's slice): the k-th critical point a JADE process reaches inside a
+        # results-lock hold (node file or consolidated file, never the cluster lock) stalls for longer than the 300-s lock
+        # timeout; whoever waits for that lock fails.  From then on the run is not fault-free.
+        sh = self.scen.get("slow_results_holder")
+        if sh and self.srh is None:
+            for a in sorted(self.actors.values(), key=lambda x: x.idx):
+                if a.state == "waiting" and a.role == "py" and a.msg.get("k") == "io" and (a.pid, a.n) not in self.srh_seen and self.park_point(a.msg) and "run-jobs" not in a.cmd and self.holds_node_lock_of_busy_batch(a):
+                    self.srh_seen.add((a.pid, a.n))
+                    if len(self.srh_seen) == sh:
+                        self.srh = a
+                        self.srh_jump0 = self.time_jumps
+                        self.faults_injected.append(("slow_results_lock_holder", a.host, self.point_class(a.msg)))
+                        self.log("SLOW_RESULTS_HOLDER", a.pid, a.host, self.point_class(a.msg))
+                        break
+        cands, sleepers = self._candidates()
+        if self.srh is not None and not self.srh_released:
+            rest = [c for c in cands if c[2] is not self.srh]
+            if self.time_jumps > self.srh_jump0 or self.srh.state == "dead" or (not rest and not sleepers):
+                self.srh_released = True
+                self.log("SLOW_RESULTS_HOLDER_RELEASED", "time jumps", self.time_jumps - self.srh_jump0)
+            else:
+                cands = rest
+        return cands, sleepers
+
+    def _candidates(self):
         pol = self.scen.get("policy") or {}
         cands = []
         held_job = False
@@ -2203,6 +2251,7 @@ class Sim:
             "killed_nodes": sum(1 for b in self.batches.values() if b.get("killed")),
             "resub_after_cancel": self.resub_after_cancel,
             "window_resub": bool(self.window_resub),
+            "slow_results_holder_stalled": bool(self.srh is not None and self.time_jumps > self.srh_jump0),
             "scancel_failures": getattr(self, "scancel_failures", 0),
             "prompted_recoveries": self.prompted_recoveries,
             "window_resub_rc": self.top_rc.get("userresub_window"),
